@@ -18,7 +18,9 @@ PROJECTION = "(introspected lists as contract ids, manual verdict, real outcome)
 ASSUMPTIONS = ["integrators supply the bound arguments by name (no _ARGS/_KWARGS in manually judged conditions)"]
 
 AW = {"T": 6, "F": 4}
-NEIGHBOURS = [{"from": "C03", "limit": 400, "why": "every invariant listed for a class is enforced on all member kinds"}]
+NEIGHBOURS = [{"from": "C03", "limit": 400, "why": "every invariant listed for a class is enforced on all member kinds"},
+              {"from": "C17", "limit": 500, "why": "the lists shown for a class are the ones its calls evaluate"},
+              {"from": "C02", "limit": 300, "why": "contracts merged into a checker after its first use are enforced"}]
 
 
 def _manualable(c):
